@@ -58,6 +58,7 @@ MODELLED_WRITERS = {
     ("step.py", "trigger:step_reset_holding", "UPDATE", "step"): (("_holding",), "set_sstate"),
     ("step.py", "trigger:step_clear_deferred", "UPDATE", "step"): (("deferred",), "set_sstate"),
     ("step.py", "trigger:step_reset_defer_count", "UPDATE", "step"): (("defer_count",), "set_sstate"),
+    ("step.py", "trigger:step_node_undefer_reattached", "UPDATE", "step"): (("deferred",), "undefer_post (GraphExt.v)"),
     ("step.py", "trigger:step_hash_ins", "UPDATE", "step"): (("_has_hash",), "has_hash (dump_of)"),
     ("step.py", "trigger:step_hash_del", "UPDATE", "step"): (("_has_hash",), "has_hash (dump_of)"),
     ("step.py", "Step.initialize_row", "DELETE", "step"): (("*",), "step_initialize_row"),
